@@ -599,6 +599,9 @@ pub struct HybridCompressor {
 }
 
 impl HybridCompressor {
+    /// Algorithm identifier of a payload that was stored without compression
+    const STORED: u8 = 0xFF;
+
     /// Create a new hybrid compressor that automatically selects the best algorithm
     ///
     /// The compressor will test multiple algorithms and choose the one with best compression
@@ -623,8 +626,10 @@ impl Compressor for HybridCompressor {
             return Ok(Vec::new());
         }
 
+        // When no component shrinks the data it is stored as is under a marker of its own;
+        // tagging it with a component index would hand raw bytes to that component's decoder.
         let mut best_result = data.to_vec();
-        let mut best_algorithm = 0u8;
+        let mut best_algorithm = Self::STORED;
 
         // Try each compressor and pick the best result
         for (i, compressor) in self.compressors.iter().enumerate() {
@@ -649,6 +654,10 @@ impl Compressor for HybridCompressor {
 
         let algorithm_id = data[0] as usize;
         let compressed_data = &data[1..];
+
+        if data[0] == Self::STORED {
+            return Ok(compressed_data.to_vec());
+        }
 
         if algorithm_id >= self.compressors.len() {
             return Err(ZiporaError::invalid_data(
